@@ -3,6 +3,20 @@ TRUST = ("trusted: CPython ast; the checker's own engines; for table rules the i
          "against the real loaders at development time). Known findings are listed in KNOWN_FINDINGS.txt. ")
 
 META = {
+    "C09": {
+        "engine": "sa: call graph, information-flow classification, effect summaries, table model",
+        "technique": "non-interference by use classification: every read (and local alias) of a formatting option is "
+                     "shown to reach only validation, output-stage calls or string building through resolved parameter "
+                     "bindings; effect bound of the output-stage call closure; table check of the neutral-termini shifts",
+        "text": "each of the reads of whitespace/keep_chain/include_header/pdb_output/apbs_input/ffout is classified; a "
+                "read bound to a callee parameter is followed through resolved calls until it only selects strings; the "
+                "call closures of the printers, header builders, dump_apbs and apply_name_scheme contain no store to a "
+                "model attribute and no model-mutating call (apply_name_scheme stores names only); naming happens after "
+                "the charge check; --drop-water filters before the model exists; neutraln/neutralc are read only by "
+                "check_options/main_driver and inside assign_termini only select the chain-end patch; PARSE N*->NEUTRAL-N* "
+                "and C*->NEUTRAL-C* differ by exactly -1/+1 for all 20 residues.",
+        "note": TRUST + "Assumes propka does not read pdb2pqr's formatting attributes.",
+    },
     "C11": {
         "engine": "sa: call graph with receiver resolution + whole-program lints, positive controls",
         "technique": "reachability-scoped lints on the resolved program (set-typed value inference + order-sensitivity "
